@@ -17,9 +17,9 @@ from harness import coqfmt as cf
 PROP = "C19"
 COQ = dict(imports=["Model.Loader", "Spec.C19"], in_ty="input", out_ty="res obs",
            corr="corr_C19", decide="check_C19", inclass="inclass_C19", model="load_revisions")
-THEOREMS = ["C19_check_sound", "C19_exactly_once", "C19_nothing_else", "C19_exactly_once_refuted",
-            "C19_no_error", "C19_no_error_refuted", "C19_main", "C19_source_wins", "C19_dedupe",
-            "C19_duplicate_id", "C19_split_clean", "C19_split_refuted"]
+THEOREMS = ["C19_check_sound", "C19_main_partial", "C19_exactly_once_partial", "C19_nothing_else",
+            "C19_exactly_once_refuted", "C19_no_error_partial", "C19_no_error_refuted", "C19_main_refuted",
+            "C19_source_wins", "C19_dedupe", "C19_duplicate_id", "C19_split_clean", "C19_rev_file_names"]
 TRUSTED = [
     "file-system semantics assumed by the model (Model/Loader.v): os.walk(top, topdown=True) without followlinks visits "
     "top and every real sub-directory, lists links to directories under dirs and everything else under files; "
